@@ -120,7 +120,13 @@ def liesel_model(seed, variant=None):
     X, y, xnew = data(seed)
     beta = lsl.param(np.zeros(2, dtype=np.float32), lsl.Dist(tfd.Normal, loc=np.float32(0.0), scale=np.float32(10.0)), name="beta")
     sigma = lsl.param(np.float32(1.0), lsl.Dist(tfd.LogNormal, loc=np.float32(0.0), scale=np.float32(1.0)), name="sigma")
-    sigma.transform(tfb.Exp())
+    if variant.get("dep_bij"):
+        # bijector class whose argument is itself a sampled quantity: sigma = Softplus_h(t) with h = exp(lh), lh sampled by its own kernel
+        lh = lsl.param(np.float32(0.0), lsl.Dist(tfd.Normal, loc=np.float32(0.0), scale=np.float32(0.3)), name="lh")
+        hv = lsl.Var(lsl.Calc(lambda v: jnp.exp(jnp.asarray(v)), lh), name="hinge")
+        sigma.transform(tfb.Softplus, hinge_softness=hv)
+    else:
+        sigma.transform(tfb.Exp())
     shift = lsl.param(np.float32(0.0), lsl.Dist(tfd.Normal, loc=np.float32(0.0), scale=np.float32(2.0)), name="shift")
     if variant.get("disc"):
         # a categorical parameter (finite-discrete prior) that shifts the mean; sampled by the library's finite-discrete Gibbs kernel
@@ -138,7 +144,7 @@ def liesel_model(seed, variant=None):
     model = lsl.GraphBuilder().add(yv, pred, *extra).build_model()
     if variant.get("auto_off"):
         model.auto_update = False
-    params = ["beta", "sigma_transformed", "shift"] + (["z"] if variant.get("disc") else [])
+    params = ["beta", "sigma_transformed", "shift"] + (["z"] if variant.get("disc") else []) + (["lh"] if variant.get("dep_bij") else [])
     derived = ["mu", "sigma", "pred", "_model_log_prob", "_model_log_lik", "_model_log_prior"] + (["shift_pit"] if variant.get("pit") else [])
     return model, params, derived
 
@@ -160,9 +166,19 @@ def recompute(seed, p, variant=None):
     variant = variant or {}
     zc = float(p["z"]) if variant.get("disc") else 0.0
     mu = X @ b + s + 0.3 * zc
-    sig = math.exp(t)
+    if variant.get("dep_bij"):
+        lhv = float(p["lh"])
+        h = math.exp(lhv)
+        sig = h * float(np.logaddexp(0.0, t / h))
+        ljac = -float(np.logaddexp(0.0, -t / h))                     # d sigma / d t = sigmoid(t / h)
+    else:
+        sig = math.exp(t)
     ll = float(np.sum(sps.norm.logpdf(y, mu, sig)))
-    lpr = float(np.sum(sps.norm.logpdf(b, 0, 10.0)) + sps.norm.logpdf(t, 0, 1.0) + sps.norm.logpdf(s, 0, 2.0))
+    if variant.get("dep_bij"):
+        lp_t = float(sps.lognorm.logpdf(sig, 1.0)) + ljac + float(sps.norm.logpdf(lhv, 0, 0.3))
+    else:
+        lp_t = float(sps.norm.logpdf(t, 0, 1.0))
+    lpr = float(np.sum(sps.norm.logpdf(b, 0, 10.0)) + lp_t + sps.norm.logpdf(s, 0, 2.0))
     # a weak variable with a distribution is neither parameter nor observed: its log-density enters the model log-prob only
     extra = float(sps.halfnorm.logpdf(sig ** 2, scale=5.0)) if variant.get("weakdist") else 0.0
     if variant.get("disc"):
@@ -201,7 +217,8 @@ def gen():
         return {"liesel": draw(st.sampled_from([True, True, False])), "kernels": ks, "iters": draw(st.integers(12, 40)), "seed": draw(st.integers(0, 10**6)),
                 "epoch": draw(st.sampled_from([1, 3, 4])),
                 "variant": {"weakdist": draw(st.booleans()), "auto_off": draw(st.booleans()), "alias": draw(st.integers(0, 2)) == 0,
-                            "pit": draw(st.booleans()), "disc": draw(st.booleans())}}
+                            "pit": draw(st.booleans()), "disc": draw(st.booleans()), "dep_bij": draw(st.booleans())},
+                "lh_kind": draw(st.sampled_from(["rw", "hmc", "nuts", "mh"]))}
 
     return g()
 
@@ -244,9 +261,15 @@ def oracle(c):
     watch = params + derived
     kernels = []
     klist = list(c["kernels"])
+    if c["liesel"] and (c.get("variant") or {}).get("dep_bij"):
+        # jax.hessian through tfb.Softplus(hinge_softness=<traced value>) inside lax.cond trips an internal JAX assertion (reproduced without
+        # liesel): IWLS is not used on the block that contains the transformed variable in this variant
+        klist = [dict(k, kind="rw") if (k["kind"] == "iwls" and "sigma_transformed" in k["keys"]) else k for k in klist]
     disc = bool(c["liesel"] and (c.get("variant") or {}).get("disc"))
     if disc:
         klist.append({"keys": ["z"], "kind": "disc_gibbs", "step": 1.0, "id": "dd_disc"})
+    if c["liesel"] and (c.get("variant") or {}).get("dep_bij"):
+        klist.append({"keys": ["lh"], "kind": c.get("lh_kind", "rw"), "step": 0.3, "id": "hh_hinge"})
     for k in klist:
         if k["kind"] == "disc_gibbs":
             from liesel.model.goose import finite_discrete_gibbs_kernel
